@@ -13,7 +13,7 @@ Extraction "model.ml"
   (* Raft *) Raft.init_default Raft.step Raft.run Raft.election_safety_b Raft.committed_agree_b
              Raft.leader_completeness_b Raft.double_vote_b Raft.stale_vote_b Raft.ack_diverged_b
              Raft.old_term_commit_b Raft.ack_below_vote_b Raft.all_synced_b Raft.drain
-  (* RaftLog *) RaftLog.commit_noquorum_b RaftLog.leader_completeness_up_b
+  (* RaftLog *) RaftLog.commit_noquorum_b RaftLog.leader_completeness_up_b RaftLog.stale_ack_counted_b
   (* ExecSched *) ExecM.run
   (* ValueIndex *) store_db_value load_db_value store_kv load_kv remove_value remove_kv fresh_ix lookup
                    is_value vi_index vi_type vi_size wf_value utf8_lossy
